@@ -18,6 +18,9 @@ EXTRA_OPS = ["tojson", "to_yaml", "@base64", "keys", "to_entries", "with_entries
              ".a[1:]", ".a[:1]", ".[0:2]", "with_entries(select(.key == \"a\"))"]
 
 
+MERGE_FLAGS = ["", "+", "d", "?", "n", "+d", "+?", "+n", "d?", "dn", "?n", "+d?", "+dn", "+?n", "d?n", "+d?n"]
+
+
 def run(chk):
     thorough = chk.tier == "thorough"
     proved, plog = chk.prove("Props/C08.v")
@@ -84,8 +87,9 @@ def run(chk):
     # ---- YAML documents with anchors, aliases, merge keys, non-string keys: the document must print as `.` prints it
     ydocs = ["a: &x {k: 1}\nb: *x\n", "a: &x {k: 1}\nb: {<<: *x, c: &y [1, 2]}\nd: *y\n", "- &a [1, 2]\n- *a\n- {m: *a}\n",
              "base: &b {k: 1}\nlist: [*b, {k: 2}, *b]\nrecs:\n  - {id: 1, cfg: {ref: *b}}\n  - {id: 2, cfg: {ref: *b}}\n  - id: 3\n    cfg:\n      <<: *b\n      extra: true\n",
+             "base: &x {k: ~, keep: 1}\na: {m: *x, n: ~, l: [1, *x]}\nb: {m: {k: 2, j: 3}, n: 5, l: [{k: 9}, {j: 1}, 3]}\n",
              "1: x\ntrue: y\n~: z\n", "a: !!str 1\nb: !custom v\nc: 'q'\n", "a: # c\n  - 1 # one\n  - 2\n"]
-    yops = EXTRA_OPS + ["unique_by(.cfg)", "group_by(.cfg)", "sort_by(.cfg)", "unique_by(.)", "group_by(.)", "sort_by(.)", "map(.cfg)", "to_json", "@json", "to_props", "to_yaml", "@yaml", "tojson", "to_xml", "to_csv", "to_tsv"]  # explode is an in-place operator, so it is outside the property
+    yops = EXTRA_OPS + ["unique_by(.cfg)", "group_by(.cfg)", "sort_by(.cfg)", "unique_by(.)", "group_by(.)", "sort_by(.)", "map(.cfg)"] + [".a *%s .b" % fl for fl in MERGE_FLAGS] + [".b *%s .a" % fl for fl in MERGE_FLAGS[::3]] + ["to_json", "@json", "to_props", "to_yaml", "@yaml", "tojson", "to_xml", "to_csv", "to_tsv"]  # explode is an in-place operator, so it is outside the property
     yreq, ymeta = [], []
     for y in ydocs:
         yreq.append({"op": "eval", "expr": ".", "input": y, "in": "yaml", "out": "yaml"})
